@@ -16,6 +16,16 @@ PROBES = ['a"; discard; #', "a\\", 'x" , "y', "a]", "${x}", "a\r\nb",
 BENIGN = "BENIGNVALUE"
 
 
+def ladder(top):
+    """long values: every length 2^k - 1, 2^k, 2^k + 1 up to 2^top, made of characters that need escaping"""
+    unit = 'a"\\, ]é\n'
+    out = []
+    for k in range(5, top + 1):
+        for L in (2 ** k - 1, 2 ** k, 2 ** k + 1):
+            out.append((unit * (L // len(unit) + 1))[:L])
+    return out
+
+
 def values(maxlen):
     out = []
     for n in range(0, maxlen + 1):
@@ -24,7 +34,7 @@ def values(maxlen):
             if v.startswith(('"', "'")):
                 continue  # taken by the factory as already quoted: outside the claim
             out.append(v)
-    return out + PROBES
+    return out + PROBES + ladder(10 if maxlen <= 3 else 14)
 
 
 def _fileinto_variants():
